@@ -41,8 +41,9 @@ instance : Transc Float where
   cos := Float.cos
   acos := Float.acos
   atan2 := Float.atan2
-  rpow := Float.pow
-  npow x n := Float.pow x (Float.ofNat n)
+  rpow x y := if y == 2.0 then x * x else Float.pow x y   -- gcc folds `pow(x, 2.0)` into `x * x`
+  -- gcc folds `pow(x, 2.0)` into `x * x` (exactly rounded); other exponents call libm `pow`
+  npow x n := if n = 2 then x * x else Float.pow x (Float.ofNat n)
   fabs := Float.abs
   pi := 3.141592653589793
   isnan := Float.isNaN
